@@ -101,6 +101,14 @@ def _walk(fn, log_scale, repo):
                     continue
                 if isinstance(t, ast.Name) and t.id == 'y' and out['applied']:
                     env['y'] = lf.ev(s.value, env, fn, 0, CLS)
+                    continue
+                if isinstance(t, ast.Name) and t.id not in protected:
+                    # temporaries (chain-rule factors defined per branch)
+                    try:
+                        env[t.id] = lf.ev(s.value, env, fn, 0, CLS)
+                    except Unsupported:
+                        env.pop(t.id, None)
+    protected = set(env)
     visit(fn.body)
     out['y'] = env['y']
     return out
